@@ -332,8 +332,10 @@ func init() {
 			vs := ubjson.NewVisitor(w)
 			return vs, func() int { d, _ := vs.VerifDepth(); return d }
 		},
-		newParser:   func(vs structform.Visitor) parserI { return ubjParser{ubjson.NewParser(vs)} },
-		parseReader: func(in io.Reader, vs structform.Visitor) (int64, error) { return ubjson.ParseReader(in, vs) },
+		newParser:      func(vs structform.Visitor) parserI { return ubjParser{ubjson.NewParser(vs)} },
+		parseReader:    func(in io.Reader, vs structform.Visitor) (int64, error) { return ubjson.ParseReader(in, vs) },
+		pkgParse:       func(b []byte, vs structform.Visitor) error { return ubjson.Parse(b, vs) },
+		pkgParseString: func(str string, vs structform.Visitor) error { return ubjson.ParseString(str, vs) },
 		newDecoder: func(in io.Reader, buf int, vs structform.Visitor) decoderI {
 			return ubjson.NewDecoder(in, buf, vs)
 		},
